@@ -168,12 +168,16 @@ def valid_history(rng, kind, ncalls=30, small=False, allow=("ratio", "ramp", "ch
                     p["via"] = "into"
                 if rng.random() < 0.5 and p.get("via", "into") in ("into", "slices", "vec_into"):
                     p["empty_masked"] = True
+                elif rng.random() < 0.3 and p.get("via", "into") in ("into", "slices", "vec_into"):
+                    p["masked_len"] = rng.choice([1, 2, 17, 100])     # skipped channels: short, non-empty buffers
             elif mask is not None:
                 p["mask"] = mask
                 if not any(mask) and p.get("via") in ("alloc", "vec_alloc"):
                     p["via"] = "into"   # the written count is not observable through process() then
                 if rng.random() < 0.5 and p.get("via", "into") in ("into", "slices", "vec_into"):
                     p["empty_masked"] = True
+                elif rng.random() < 0.3 and p.get("via", "into") in ("into", "slices", "vec_into"):
+                    p["masked_len"] = rng.choice([1, 2, 17, 100])
             ops.append(p)
     if "partial" in allow and rng.random() < 0.5:
         for _ in range(rng.randrange(1, 4)):
